@@ -356,6 +356,32 @@ def _small_scope(classes, rels, quick):
     return out
 
 
+def _directed(classes, rels):
+    """one script per ordering need and API form: every relationship x {insert both, unlink + delete the
+    target, delete both, re-point + delete the old target, delete the target only, delete the holder only}"""
+
+    def inst(cls):
+        # a concrete class that is cls or a subclass
+        return cls
+
+    out = []
+    for i, (kind, a, b, fl) in enumerate(rels):
+        base = [[0, inst(a)], [0, inst(b)], [0, inst(b)]]  # x = 0 (holder / left), y = 1, y2 = 2
+        if kind == 0:
+            for link in ([1, i, 0, 1], [2, i, 1, 0]):
+                unlink = [1, i, 0, -1] if link[0] == 1 else [3, i, 1, 0]
+                relink = [1, i, 0, 2] if link[0] == 1 else [2, i, 2, 0]
+                pre = base + [link, [8]]
+                out += [base + [link], pre + [unlink, [6, 1]], pre + [[6, 1], unlink], pre + [[6, 0], [6, 1]],
+                        pre + [relink, [6, 1]], pre + [[6, 1]], pre + [[6, 0]], pre + [[0, inst(a)], [6, 1]],
+                        base[:2] + [[8], link, [0, inst(b)]], pre + [unlink, [7], link]]
+        else:
+            pre = base + [[4, i, 0, 1], [8]]
+            out += [base + [[4, i, 0, 1]], pre + [[5, i, 0, 1], [6, 1]], pre + [[6, 1]], pre + [[6, 0]], pre + [[6, 0], [6, 1]],
+                    pre + [[4, i, 0, 2], [6, 1]], pre + [[5, i, 0, 1], [4, i, 0, 2]]]
+    return out
+
+
 def search_cases(rng, tier):
     """search phase only (the tie is already broken): a much larger sample of the small-scope scripts"""
     return gen_cases(rng, "search")
@@ -366,12 +392,14 @@ def gen_cases(rng, tier):
     cases = []
     for name, (classes, rels) in FAMILIES.items():
         ss = _small_scope(classes, rels, quick)
-        cap = 90 if tier == "search" else 16 if quick else 1500
+        cap = 90 if tier == "search" else 8 if quick else 1500
         if len(ss) > cap:
             ss = rng.sample(ss, cap)
         for ops in ss:
             cases.append({"in": [classes, rels, ops], "kind": "small:" + name, "fam": name})
-        for _ in range(8 if quick else 500):
+        for ops in _directed(classes, rels):
+            cases.append({"in": [classes, rels, ops], "kind": "directed:" + name, "fam": name})
+        for _ in range(6 if quick else 500):
             ops = _rand_script(rng, classes, rels, rng.randint(3, 14 if quick else 40))
             cases.append({"in": [classes, rels, ops], "kind": "rand:" + name, "fam": name})
     # random schemas
